@@ -1,6 +1,6 @@
 #!/bin/bash
 # Re-confirms every kept seeded change against /repo's HEAD and runs the checks recorded in its meta.json.
-# Output: one block per seed; summary table at the end (also written to /verif/seeded/RESULTS.md).
+# Output: one block per seed; summary table at the end (written to /dev/shm/seedall/RESULTS.run.md; seeded/RESULTS.md is generated from the meta data).
 cd /verif
 out=/dev/shm/seedall; mkdir -p $out
 for d in seeded/C*/; do
